@@ -763,6 +763,69 @@ Proof.
       * destruct (Hi z (or_intror Hz)) as [E|H]; auto. specialize (Hx z Hz). lia.
 Qed.
 
+(* ================================================================== E: the blocker set after remove_star(simplex of dimension >= 2) *)
+Lemma remove_first_NoDup s l : NoDup l -> NoDup (remove_first s l) /\ forall x, In x (remove_first s l) <-> In x l /\ x <> s.
+Proof.
+  induction l as [|y l IH]; intros Hn; simpl.
+  - split; [constructor | intros x; tauto].
+  - inversion Hn as [|y' l' Hy Hl]; subst. destruct (IH Hl) as [IH1 IH2].
+    destruct (seqb s y) eqn:E.
+    + apply seqb_eq in E. subst y. split; auto. intros x. split.
+      * intros Hx. split; auto. intros ->. auto.
+      * intros [[<-|Hx] N]; [congruence|auto].
+    + assert (Hsy : s <> y) by (intros ->; rewrite (proj2 (seqb_eq y y) eq_refl) in E; discriminate).
+      split.
+      * constructor; auto. intros H. apply IH2 in H. tauto.
+      * intros x. simpl. rewrite IH2. split.
+        -- intros [<-|[Hx N]]; auto.
+        -- intros [[<-|Hx] N]; auto.
+Qed.
+Lemma fold_delete_blocker_NoDup L : forall c, NoDup (blk c) ->
+  let c1 := fold_left delete_blocker L c in
+  NoDup (blk c1) /\ forall x, In x (blk c1) <-> In x (blk c) /\ ~ In x L.
+Proof.
+  induction L as [|s L IH]; intros c Hn; simpl.
+  - split; auto. intros x; tauto.
+  - destruct (remove_first_NoDup s (blk c) Hn) as [R1 R2].
+    destruct (IH (delete_blocker c s) R1) as [I1 I2]. split; auto.
+    intros x. rewrite I2. simpl. rewrite R2. split.
+    + intros [[H1 H2] H3]. split; [assumption|]. intros [E|E]; [apply H2; symmetry; exact E | exact (H3 E)].
+    + intros [H1 H2]. split; [split; [assumption|]|].
+      * intros E. apply H2. left. symmetry. exact E.
+      * intros E. apply H2. right. exact E.
+Qed.
+
+(* with blockers stored without repetition, remove_star(sigma), dim sigma >= 2, leaves exactly: sigma, and the old blockers
+   that do not contain sigma - which by C17_remove_star_spec is the set of minimal non-faces of the new complex whenever
+   the old blockers were the minimal non-faces of the old one *)
+Theorem remove_star_simplex_blockers thr (c : cplx) (sigma : simplex) :
+  (3 <= length sigma)%nat -> NoDup (blk c) ->
+  forall b, In b (blk (remove_star_simplex thr c sigma)) <-> b = sigma \/ (In b (blk c) /\ ssub sigma b = false).
+Proof.
+  intros Hl Hn b. unfold remove_star_simplex.
+  assert (Hd0 : dim sigma =? 0 = false) by (apply Z.eqb_neq; unfold dim, zlen; lia).
+  assert (Hd1 : dim sigma =? 1 = false) by (apply Z.eqb_neq; unfold dim, zlen; lia).
+  rewrite Hd0, Hd1. unfold remove_blocker_containing_simplex.
+  set (L := filter (fun b0 => ssub sigma b0) (blockers_at c (hdz sigma))).
+  destruct (fold_delete_blocker_NoDup L c Hn) as [N1 N2].
+  set (c1 := fold_left delete_blocker L c) in *.
+  assert (HL : forall x, In x L <-> In x (blk c) /\ ssub sigma x = true).
+  { intros x. unfold L, blockers_at. rewrite !filter_In. split; [tauto|]. intros [H1 H2]. repeat split; auto.
+    destruct sigma as [|v s]; [simpl in Hl; lia|]. simpl. apply smem_In.
+    apply (proj1 (ssub_incl _ _) H2). left; auto. }
+  assert (Hc1 : forall x, In x (blk c1) <-> In x (blk c) /\ ssub sigma x = false).
+  { intros x. rewrite N2, HL. destruct (ssub sigma x); split; intros [H1 H2]; split; auto; try congruence.
+    - exfalso. apply H2. auto.
+    - intros [_ H]. discriminate. }
+  unfold add_blocker. destruct (contains_blocker c1 sigma) eqn:E.
+  - rewrite Hc1. split; auto. intros [->|H]; auto.
+    unfold contains_blocker in E. destruct (dim sigma <? 2); [discriminate|]. apply lmem_In in E.
+    unfold blockers_at in E. apply filter_In in E. destruct E as [E _]. apply Hc1 in E. auto.
+  - simpl blk. rewrite in_app_iff, Hc1. simpl. split.
+    + intros [H|[<-|[]]]; auto.
+    + intros [->|H]; auto.
+Qed.
+
 (* ================================================================== witnesses *)
 (* boundary of the tetrahedron 0123 built through the transcribed operations *)
 Definition complete4 : cplx :=
